@@ -1,10 +1,28 @@
 """C13 check specification."""
 
+
+
+def _borrow(pid, sink, judge):
+    """A function-level harness part of another property, judged here only for panics / hangs (Check/C13_check.v p_*)."""
+    from importlib import import_module
+    sp = import_module('specs.' + pid).SPEC
+    for p in sp['parts']:
+        if sink in p['sinks']:
+            q = dict(p)
+            q['sinks'] = {sink: judge}
+            q['coq_import'] = sp['coq_check']
+            return q
+    raise KeyError((pid, sink))
+
+
 SPEC = {
     'id': 'C13',
     'title': 'Malformed or adversarial inputs produce errors, never panics or hangs',
     'coq_check': 'C13_check',
     'parts': [
+        _borrow('C17', 'C17_trunc', 'p_c17_trunc'), _borrow('C17', 'C17_step', 'p_c17_step'),
+        _borrow('C09', 'C09_ranges', 'p_c09_ranges'), _borrow('C09', 'C09_filter', 'p_c09_filter'), _borrow('C09', 'C09_pending', 'p_c09_pend'),
+        _borrow('C08', 'C08_add_0', 'p_c08_add'), _borrow('C08', 'C08_sel', 'p_c08_sel'),
         {'pkg': 'commit/merkleroot/rmn', 'pkgname': 'rmn', 'src': 'harness/commit/merkleroot/rmn/c06_test.go', 'test': 'TestVerif_C06_sweep',
          'sinks': {'C06_sweep': 'c06_judge'}, 'n': {'quick': 1, 'thorough': 6}},
         {'pkg': 'commit', 'src': 'harness/commit/c13_test.go', 'test': 'TestVerif_C13_commit', 'fakes': True, 'extra_libs': ['vmutate'],
@@ -25,7 +43,9 @@ SPEC = {
             'ShouldAccept / ShouldTransmit on mutated reports; plus random double-site mutations of the observation (quick 400, thorough 40 000) and a raw byte stream (truncated, random, single-byte corrupted, tiny literals) at every entry point. '
             'One case per (document, site, mutation, callback); the observable is the termination code (returned / panicked / watchdog). C13_reader_*: every answer a scripted contract reader gives while either plugin observes through the real ccipChainReader (all phases) is mutated at every JSON node in turn (reader results: nil-valued, empty, inconsistent). The RMN controller\'s response '
             'handling is swept by the C06 harness (sink C06_sweep, judged here too): every single anomaly and every PAIR of anomalies out of 38 observation-response and 14 signature-response anomalies '
-            '(extra / duplicate / missing lanes, root lengths 0/5/31/33, nil sub-messages, wrong ids and senders, wrong interval / on-ramp / digest, bad signatures, garbage bodies) applied to one response of an honest run; outcome kinds panic and watchdog are violations. non-trivial: every case; distinct by digest',
+            '(extra / duplicate / missing lanes, root lengths 0/5/31/33, nil sub-messages, wrong ids and senders, wrong interval / on-ramp / digest, bad signatures, garbage bodies) applied to one response of an honest run; outcome kinds panic and watchdog are violations. Borrowed parts: the function-level harnesses of C17 (truncateObservation / truncateLastCommit / truncateChain), C09 (computeRanges, '
+            'filterOutExecutedMessages, getPendingExecutedReports) and C08 (report builder Add, selectReport) are run again here and judged ONLY for the termination kind they recorded (recovered panic / watchdog = violation; '
+            'judges p_* in Check/C13_check.v). non-trivial: every case; distinct by digest',
     'trusted': ['encoding/json, protobuf, math/big, hex.DecodeString, big.Int.SetString never panic on any input (library oracles)',
                 'logging calls with %v of arbitrary values do not panic',
                 'contract-reader results are those of the real ccipChainReader guards (nil big integers are turned into errors there) — the fakes answer within that contract'],
